@@ -135,3 +135,26 @@ Proof.
   - vm_compute. reflexivity.
   - reflexivity.
 Qed.
+
+(* ---------------------------------------------------------------- second known class *)
+(* scalar Any  type Query { any(j: Any): Any } ; query($v: Int) { any(j: {a: $v}) } with {"v": 3}:
+   the (valid) document's field fails with a SuspectedValidationBug error and the resolver is never called *)
+Definition x_nv2_schema : schema :=
+  {| sch_def := x_sdef; sch_dirdefs := [];
+     sch_types := [x_scalar "Int"; x_scalar "String"; EScalar None (xs "Any") [] false;
+                   EObject None (xs "Query") [] []
+                     [mkcomp ODef {| fd_desc := None; fd_name := xs "any";
+                                     fd_args := [{| iv_desc := None; iv_name := xs "j"; iv_ty := TNamed (xs "Any");
+                                                    iv_default := None; iv_dirs := [] |}];
+                                     fd_ty := TNamed (xs "Any"); fd_dirs := [] |}] false] |}.
+Definition x_nv2_doc : document :=
+  [DOperation OpQuery None
+     [{| v_name := xs "v"; v_ty := TNamed (xs "Int"); v_default := None; v_dirs := [] |}] []
+     [SField None (xs "any") [(xs "j", VObject [(xs "a", VVar (xs "v"))])] [] []]].
+
+Lemma c26_nested_variable_refuted :
+  (exists d, td_build x_nv2_schema x_nv2_doc = Some d /\ known_nested_var d = true) /\
+  execute_request x_nv2_schema x_nv2_doc [(xs "v", JInt 3)] [((0%N, xs "any"), BhEcho)] =
+    (EoResponse {| er_data := Some [(xs "any", JNull)];
+                   er_errors := [{| ge_class := EcBug; ge_path := [PsKey (xs "any")] |}] |}, []).
+Proof. split; [eexists; split; vm_compute; reflexivity|vm_compute; reflexivity]. Qed.
